@@ -5,7 +5,12 @@ ROOT = os.path.dirname(os.path.abspath(__file__))
 BASE = "cd /repo && GOFLAGS=-mod=mod GOPROXY=off go test -vet=off -count=1 -timeout 25m ./..."
 NOTE = ("Trusted: Coq 8.16.1 kernel and vm_compute (no native_compute); no axioms (every Print Assumptions is 'Closed under the global "
         "context'); the go2v translator; the Go harness/oracle; Go toolchain and third-party libraries. See DESIGN.md section 7.")
+SOURCE_COMMITS = ["def0a59 fix: lowest-index ACS selection treats index 0 as a real index", "69b9887 fix: accept xs:boolean \"1\" for isDefault"]
 CLAIMED = {
+ "C16": dict(ref="5 C16", technique="Rocq/Coq proof about go2v-generated Gallina of GetAcsUrlAndBindingForResponse + exhaustive correspondence",
+   text="C16_bridge/_refines/_deterministic/_member are proved for all lists about the Gallina function go2v regenerates from sso.go on every run; "
+        "the generated function is evaluated inside Coq on sampled and malformed inputs against the exported Go function; every list up to length 3 "
+        "(thorough 4) over the property's alphabets runs against an independent Go oracle of the documented rule."),
  "C20": dict(ref="5 C20", technique="Rocq/Coq proof about go2v-generated Gallina of checker.go + in-Coq trace correspondence",
    text="Theorems C20_sem/_prefix/_iff/_trace/_once/_no_later about the definitions go2v regenerates from checker.go on every run "
         "(any chain length, any closures); tie: the generated evaluator is executed inside Coq (vm_compute) on instrumented chains "
@@ -35,7 +40,7 @@ def main():
       "version": 1,
       "setup_cmd": "python3 bin/check --build-only",
       "hooks": {"guard": "verif", "enable": "go build -tags verif (harness module with replace github.com/zitadel/saml => /repo)",
-                "baseline_off_cmd": BASE, "source_commits": [], "add_only": True},
+                "baseline_off_cmd": BASE, "source_commits": SOURCE_COMMITS, "add_only": True},
       "engines": [{"name": "coq-model+go-harness", "path": "bin/check", "serves_properties": sorted(CLAIMED),
                    "kind_free_text": "Coq 8.16.1 development (coq/) regenerated in part from /repo by tools/go2v; Go harness (harness/) drives the real code and emits cases evaluated inside Coq"}],
       "checks": checks,
